@@ -398,9 +398,9 @@ Definition gpu_attach (m : mode) (w h : N) (oks : list bool) (a v : N) (atoms : 
   let '(kc, oks2) := take_ok oks in
   if negb kc then (atoms, Err EIoError, []) else
   (* let size = width * height * 4;  (u32) *)
+  (* since the repair 081ee71 (C20, F15) the size is validated by checked arithmetic at the top of
+     change_resolution (see gpu_res): no overflow is possible here any more *)
   let wh := w * h in
-  if (match m with Debug => (two32 <=? wh) || (two32 <=? w32 wh * 4) | Release => false end)
-  then (atoms, Panic, []) else
   let size := w32 (w32 wh * 4) in
   let p := pages size in
   if a =? 0 then (atoms, Err EDmaError, [TAlloc p DIR_TO_DEV 0 0]) else
@@ -422,6 +422,9 @@ Definition gpu_res (m : mode) (setup : bool) (w h : N) (oks : list bool) (a v : 
   | Some old =>
     let '(k0, oks0) := if setup then take_ok oks else (true, oks) in
     if negb k0 then (atoms, Err EIoError, []) else
+    (* change_resolution: width.checked_mul(height).and_then(|p| p.checked_mul(4)).filter(|s| s != 0)
+       .ok_or(InvalidParam)? -- before anything is sent or released *)
+    if (w * h * 4 =? 0) || (two32 <=? w * h * 4) then (atoms, Err EInvalidParam, []) else
     let '(kt, oks1, atoms1, ev1) := gpu_teardown old oks0 atoms in
     if negb kt then (atoms1, Err EIoError, ev1) else
     let '(a', o, ev2) := gpu_attach m w h oks1 a v atoms1 in (a', o, ev1 ++ ev2)
